@@ -5,7 +5,11 @@ those fields, and the control structure around them (token language: lean/Model/
 The model's programs (lean/Model/ThreadProgs.lean) must have exactly these skeletons (`C18.skeleton_matches`), so a source
 change that reads the tuple twice, writes it in two steps, publishes the table before it is complete (any new access in a
 loop), or touches the fields from a new place changes the generated text and breaks that obligation.  Anything outside the
-subset below raises `Unsupported`."""
+subset below raises `Unsupported`.
+
+Limit of the static view: an operator applied to the RESULT of a call is taken to act on a fresh object; `P * 1` returns
+`P` itself, so `P * 1 + Q` (mul_add with a multiplier 1) touches `P` once more than the skeleton says.  The real-thread
+enumeration (harness/props/C18.py) sees every access dynamically and covers that case."""
 import ast, os
 from lib import common
 from .py2lean import Unsupported
@@ -375,6 +379,47 @@ def source_path():
     return os.path.join(common.SRC, "ecdsa", "ellipticcurve.py")
 
 
+def vk_precompute_shape():
+    """keys.py VerifyingKey.precompute must be: ONE attribute store `self.pubkey.point = PointJacobi.from_affine(
+    self.pubkey.point, True)` (the swap of an equal-valued new object by a single pointer store), optionally followed by
+    `if not lazy: self.pubkey.point * 2`; returns the description that goes into the generated file"""
+    tree = ast.parse(open(os.path.join(common.SRC, "ecdsa", "keys.py")).read())
+    f = None
+    for n in _cls(tree, "VerifyingKey").body:
+        if isinstance(n, ast.FunctionDef) and n.name == "precompute":
+            f = n
+    if f is None:
+        raise Unsupported("VerifyingKey.precompute not found")
+    body = f.body[1:] if f.body and isinstance(f.body[0], ast.Expr) and isinstance(f.body[0].value, ast.Constant) else f.body
+
+    def is_point(e):
+        return (isinstance(e, ast.Attribute) and e.attr == "point" and isinstance(e.value, ast.Attribute)
+                and e.value.attr == "pubkey" and isinstance(e.value.value, ast.Name) and e.value.value.id == "self")
+    if not body or not isinstance(body[0], ast.Assign) or len(body[0].targets) != 1 or not is_point(body[0].targets[0]):
+        raise Unsupported("VerifyingKey.precompute: first statement is not the single store to self.pubkey.point")
+    v = body[0].value
+    ok = (isinstance(v, ast.Call) and isinstance(v.func, ast.Attribute) and v.func.attr == "from_affine"
+          and len(v.args) == 2 and is_point(v.args[0]) and isinstance(v.args[1], ast.Constant) and v.args[1].value is True
+          and not v.keywords)
+    if not ok:
+        raise Unsupported("VerifyingKey.precompute: the stored value is not PointJacobi.from_affine(self.pubkey.point, True)")
+    out = ["store pubkey.point := from_affine(pubkey.point, True)"]
+    rest = body[1:]
+    if rest:
+        st = rest[0]
+        ok = (len(rest) == 1 and isinstance(st, ast.If) and not st.orelse and isinstance(st.test, ast.UnaryOp)
+              and isinstance(st.test.op, ast.Not) and isinstance(st.test.operand, ast.Name) and st.test.operand.id == "lazy"
+              and len(st.body) == 1 and isinstance(st.body[0], ast.Expr) and isinstance(st.body[0].value, ast.BinOp)
+              and isinstance(st.body[0].value.op, ast.Mult) and is_point(st.body[0].value.left))
+        if not ok:
+            raise Unsupported("VerifyingKey.precompute: unexpected statements after the pointer store")
+        out.append("if not lazy: pubkey.point * <int>")
+    for n in ast.walk(f):
+        if isinstance(n, ast.Attribute) and n.attr == "point" and isinstance(n.ctx, ast.Store) and n is not body[0].targets[0]:
+            raise Unsupported("VerifyingKey.precompute: a second store to the point field")
+    return out
+
+
 def generate():
     sk, relevant = skeletons(source_path())
     L = ["-- GENERATED by harness/translate/gen_access.py; do not edit. source: src/ecdsa/ellipticcurve.py class PointJacobi",
@@ -396,6 +441,10 @@ def generate():
     for m in names:
         L.append('  | "%s" => %s' % (m, lean_name(m)))
     L.append("  | _ => []")
+    L.append("")
+    vk = vk_precompute_shape()
+    L.append("/-- keys.py VerifyingKey.precompute: the point object is swapped by ONE attribute store (shape checked by the translator) -/")
+    L.append("def vk_precompute : List String := [%s]" % ", ".join('"%s"' % x for x in vk))
     L.append("")
     L.append("def touched : List String := [%s]" % ", ".join('"%s"' % m for m in names))
     L.append("def untouched : List String := [%s]" % ", ".join('"%s"' % m for m in sorted(sk) if m not in relevant))
